@@ -6,7 +6,8 @@
 1. Mirrors the working tree of <repo> (without target/ and .git/) into <sim-dir>/target/repo-copy,
    rewriting every `std::sync::` in the crates' Rust sources into `dmntk_verif_sync::` - the
    simulator's std-compatible module in which RwLock and Mutex block through the simulated
-   scheduler and everything else is std's own item. That way a lock added anywhere in the
+   scheduler and everything else is std's own item; `thread_local!` becomes the simulator's macro whose
+   keys are per simulated thread inside a shuttle execution. That way a lock added anywhere in the
    dmntk crates (not only at the two import lines switched by hooks H2/H3) is a scheduling point.
    The hook module feel/src/verif.rs is excluded: its callback slots must stay real std locks.
    Files whose content did not change keep their modification time, so cargo rebuilds only what
@@ -60,6 +61,8 @@ for member in members:
                 continue
             if fn.endswith('.rs') and rel not in NO_REWRITE and (os.sep + 'src' + os.sep) in (os.sep + rel):
                 data = data.replace(b'std::sync::', b'dmntk_verif_sync::')
+                # thread-local storage must be per simulated thread (all simulated threads share one OS thread)
+                data = data.replace(b'std::thread_local!', b'thread_local!').replace(b'thread_local!', b'dmntk_verif_sync::thread_local!')
             if fn == 'Cargo.toml' and dirpath == src_root:
                 text = data.decode('utf-8')
                 name = re.search(r'^name\s*=\s*"([^"]+)"', text, re.M).group(1)
